@@ -50,8 +50,10 @@ Theorem C10_parse_classified : forall xs xa text,
 Proof. exact parse_classified. Qed.
 Print Assumptions C10_parse_classified.
 
-(* evaluation ends with a value, the parse error (unknown name), or one of the
-   two arithmetic guards: division by zero, fractional power of a negative *)
+(* evaluation ends with a value, the parse error (unknown name), one of the
+   two arithmetic guards (division by zero, fractional power of a negative), or
+   NoOracle: a non-integer power of a magnitude, which is the host's floating
+   point and enters the model as a partial table *)
 Theorem C10_eval_classified : forall rpow ps db t, eval_class (eval rpow ps db t).
 Proof. exact eval_classified. Qed.
 Print Assumptions C10_eval_classified.
